@@ -37,7 +37,7 @@ variable {K : Type}
 /-- `A[i*n + j] = v` -/
 @[inline] def set2 (n : Nat) (A : Array K) (i j : Nat) (v : K) : Array K := A.setIfInBounds (i * n + j) v
 
--- `std::abs` of a real scalar (`absK`, `a < 0 ? -a : a`) is the one of `Model/Kernels.lean`
+-- `std::abs` of the harness type / of a real scalar (`a < 0 ? -a : a`) is `Amgcl.absK` of Model/Kernels.lean
 
 /-- `std::iota(p, p + n, 0)` -/
 def iotaN (n : Nat) (p : Array Nat) : Array Nat :=
